@@ -328,7 +328,9 @@ func visitInstr(fr *frame, instr ssa.Instruction) continuation {
 		if !fitsInt(reserve, fr.i.sizes) {
 			panic(fmt.Sprintf("ssa.MakeMap.Reserve value %d does not fit in int", reserve))
 		}
-		fr.env[instr] = makeMap(instr.Type().Underlying().(*types.Map).Key(), reserve)
+		mm := makeMap(instr.Type().Underlying().(*types.Map).Key(), reserve).(*omap)
+		mm.typ = instr.Type().String()
+		fr.env[instr] = mm
 
 	case *ssa.Range:
 		fr.env[instr] = rangeIter(fr.get(instr.X), instr.X.Type())
